@@ -91,7 +91,7 @@ package constructor
 // ---- C17 / C08: every violation that the suppression set does not cover is emitted, at its position ----------------
 //@ pure func shown_constructor(ign *util.IgnoreSet, vs []ConstructorViolation, m int) rec int = m <= 0 ? 0 : (shown_constructor(ign, vs, m-1) + (supp(ign, vs[m-1].Code, vs[m-1].Pos) ? 0 : 1))
 //@ func ReportViolations
-//@   props C17 C08 C07 C10
+//@   props C17 C08 C07 C10 C02
 //@   requires true && (ignoreSet != nil ==> isetInv(ignoreSet))
 //@   assigns pass.$reports
 //@   ensures len(pass.$reports) == old(len(pass.$reports)) + shown_constructor(ignoreSet, violations, len(violations))
